@@ -421,6 +421,9 @@ def build(spec, plain=False):
             if wps.get("wire_inputs") == "one-sided":
                 # declared on the downstream workplace only (as the constructor keyword does)
                 m.workplaces[i].input_workplace_list.append(m.workplaces[src])
+            elif wps.get("wire_inputs") == "one-sided-out":
+                # declared on the sending workplace only (constructor keyword output_workplace_list): the receiver's input list stays empty
+                m.workplaces[src].output_workplace_list.append(m.workplaces[i])
             else:
                 m.workplaces[i].append_input_workplace(m.workplaces[src])
     # hierarchies (parent team / parent workplace) and deliberate aliasing of list objects between model objects
